@@ -549,6 +549,312 @@ theorem ions_present_of_receiver (sp : List (Species α)) (r : Species α) (hmem
   rw [h0] at this
   linarith
 
+/-! ## proof-deepening pass: weights, order independence, direction scale, physical-hypotheses-only statement -/
+
+/-- the composite coefficient is literally a convex combination: weights `1/(1+Σk)` for the ground state and
+`kᵢ/(1+Σk)` for the excited states; for `kᵢ ≥ 0` they are non-negative and sum to 1 — also when some coefficients
+or some populations are exactly zero (nothing is skipped) -/
+theorem composite_convex_weights (q1 : α) (ex : List (α × α)) (hk : ∀ kq ∈ ex, 0 ≤ kq.1) :
+    let D := 1 + (ex.map fun kq => kq.1).sum
+    compositeCXRate q1 ex = (1 / D) * q1 + (ex.map fun kq => (kq.1 / D) * kq.2).sum ∧
+    0 < 1 / D ∧ (∀ kq ∈ ex, 0 ≤ kq.1 / D) ∧ 1 / D + (ex.map fun kq => kq.1 / D).sum = 1 := by
+  intro D
+  have hs : 0 ≤ (ex.map fun kq => kq.1).sum := sum_nonneg' ex _ hk
+  have hD : 0 < D := by show 0 < 1 + _; linarith
+  have e1 : (ex.map fun kq => (kq.1 / D) * kq.2).sum = (ex.map fun kq => kq.1 * kq.2).sum / D := by
+    have : (fun kq : α × α => (kq.1 / D) * kq.2) = fun kq => (kq.1 * kq.2) * D⁻¹ := by
+      funext kq; rw [div_eq_mul_inv]; ring
+    rw [this, List.sum_map_mul_right, div_eq_mul_inv]
+  have e2 : (ex.map fun kq => kq.1 / D).sum = (ex.map fun kq => kq.1).sum / D := by
+    have : (fun kq : α × α => kq.1 / D) = fun kq => kq.1 * D⁻¹ := by
+      funext kq; rw [div_eq_mul_inv]
+    rw [this, List.sum_map_mul_right, div_eq_mul_inv]
+  refine ⟨?_, by positivity, fun kq h => div_nonneg (hk kq h) hD.le, ?_⟩
+  · rw [composite_formula, e1]
+    show _ / D = _
+    field_simp
+  · rw [e2, ← add_div]; exact div_self hD.ne'
+
+/-- a metastable with relative population exactly zero has no influence, whatever its coefficient -/
+theorem composite_zero_population_drops (q1 q : α) (ex : List (α × α)) :
+    compositeCXRate q1 ((0, q) :: ex) = compositeCXRate q1 ex := by
+  rw [composite_formula, composite_formula]
+  simp only [List.map_cons, List.sum_cons, zero_mul, zero_add]
+
+/-- the order in which the provider lists the excited metastables does not matter -/
+theorem composite_perm_invariant (q1 : α) (ex ex' : List (α × α)) (h : ex.Perm ex') :
+    compositeCXRate q1 ex = compositeCXRate q1 ex' := by
+  rw [composite_formula, composite_formula, (h.map _).sum_eq, (h.map _).sum_eq]
+
+/-- … at the level of `_composite_cx_rate`: any reordering of `_excited_beam_data` gives the same coefficient -/
+theorem composite_at_perm_invariant (c : Consts α) (sqrt : α → α) (vd : V3 α) (sp : List (Species α)) (a : CXArgs α)
+    (ground : Coeff5 α) (excited excited' : List (Coeff5 α × List (Coeff3 α))) (h : excited.Perm excited') :
+    compositeAt c sqrt vd sp a ground excited = compositeAt c sqrt vd sp a ground excited' := by
+  unfold compositeAt
+  exact composite_perm_invariant _ _ _ (h.map _)
+
+/-- the order of the species in the composition does not matter for the charged sums (population, beam emission) -/
+theorem weighted_sum_perm_invariant (c : Consts α) (sqrt : α → α) (vb : V3 α)
+    (data data' : List (Species α × Coeff3 α)) (h : data.Perm data') :
+    weightedSum c sqrt vb data = weightedSum c sqrt vb data' ∧
+    beamPopulation c sqrt vb data = beamPopulation c sqrt vb data' := by
+  have hd : densitySum (data.map Prod.fst) = densitySum (data'.map Prod.fst) := by
+    unfold densitySum; rw [sumL_eq, sumL_eq]; exact ((h.map _).map _).sum_eq
+  have hw : weightedSum c sqrt vb data = weightedSum c sqrt vb data' := by
+    unfold weightedSum; simp only []; rw [sumL_eq, sumL_eq, hd]; exact (h.map _).sum_eq
+  refine ⟨hw, ?_⟩
+  unfold beamPopulation
+  rw [hw, sumL_eq, sumL_eq, (h.map _).sum_eq]
+
+/-- non-negative square roots are unique -/
+theorem sqrt_unique (sqrt : α → α) (hs : SqrtSpec sqrt) (t y : α) (ht : 0 ≤ t) (hy : 0 ≤ y) (h : y * y = t) :
+    sqrt t = y := by
+  obtain ⟨h0, h1⟩ := hs t ht
+  have : (sqrt t - y) * (sqrt t + y) = 0 := by ring_nf; rw [← sub_eq_zero] at h; nlinarith [h, h1]
+  rcases mul_eq_zero.mp this with h' | h'
+  · linarith
+  · have hz : sqrt t = 0 ∧ y = 0 := by constructor <;> linarith
+    rw [hz.1, hz.2]
+
+/-- `beam_direction` is normalised: scaling it by any positive factor leaves the beam velocity unchanged -/
+theorem beam_velocity_scale_invariant (c : Consts α) (sqrt : α → α) (hs : SqrtSpec sqrt) (energy a : α) (dir : V3 α)
+    (ha : 0 < a) (hd : dir.normSq ≠ 0) :
+    beamVelocity c sqrt energy ⟨a * dir.x, a * dir.y, a * dir.z⟩ = beamVelocity c sqrt energy dir := by
+  have hpos : 0 < dir.normSq := by
+    have : 0 ≤ dir.normSq := by
+      unfold V3.normSq; nlinarith [mul_self_nonneg dir.x, mul_self_nonneg dir.y, mul_self_nonneg dir.z]
+    exact lt_of_le_of_ne this (Ne.symm hd)
+  obtain ⟨hr0, hrr⟩ := hs dir.normSq hpos.le
+  have hrne : sqrt dir.normSq ≠ 0 := by
+    intro h0; rw [h0] at hrr; simp at hrr; exact hd hrr.symm
+  have hn : (⟨a * dir.x, a * dir.y, a * dir.z⟩ : V3 α).normSq = a * a * dir.normSq := by
+    unfold V3.normSq; ring
+  have hsq : sqrt (a * a * dir.normSq) = a * sqrt dir.normSq :=
+    sqrt_unique sqrt hs _ _ (by positivity) (by positivity) (by nlinarith [hrr])
+  have hne' : a * a * dir.normSq ≠ 0 := by positivity
+  unfold beamVelocity V3.normalise
+  simp only [hn, beq_iff_eq, hne', hd, if_false, Option.map_some, hsq]
+  congr 2
+  congr 1 <;> field_simp
+
+/-- … hence both emissions depend on the *direction* of `beam_direction` only -/
+theorem emission_direction_scale_invariant (c : Consts α) (sqrt : α → α) (hs : SqrtSpec sqrt) (a : α) (ha : 0 < a)
+    (s : CXScene α) (ground : Coeff5 α) (excited : List (Coeff5 α × List (Coeff3 α)))
+    (b : BESScene α) (rates : List (Coeff3 α))
+    (hds : s.beamDirection.normSq ≠ 0) (hdb : b.beamDirection.normSq ≠ 0) :
+    cxEmission c sqrt { s with beamDirection := ⟨a * s.beamDirection.x, a * s.beamDirection.y, a * s.beamDirection.z⟩ }
+        ground excited = cxEmission c sqrt s ground excited ∧
+    besEmission c sqrt { b with beamDirection := ⟨a * b.beamDirection.x, a * b.beamDirection.y, a * b.beamDirection.z⟩ }
+        rates = besEmission c sqrt b rates := by
+  constructor
+  · unfold cxEmission
+    simp only [beam_velocity_scale_invariant c sqrt hs s.beamEnergy a s.beamDirection ha hds]
+  · unfold besEmission
+    simp only [beam_velocity_scale_invariant c sqrt hs b.beamEnergy a b.beamDirection ha hdb]
+
+/-- with one population coefficient per species, a receiver ion of positive density makes `Σ Zᵢ nᵢ > 0` -/
+theorem charge_density_pos_of_receiver (sp : List (Species α)) (fs : List (Coeff3 α)) (i : Nat) (r : Species α)
+    (hlen : fs.length = sp.length) (hr : sp[i]? = some r) (hZ : 1 ≤ r.charge)
+    (hn : ∀ x ∈ sp, 0 ≤ x.density) (hpos : 0 < r.density) : 0 < chargeDensity (sp.zip fs) := by
+  have hi : i < sp.length := by
+    rcases Nat.lt_or_ge i sp.length with h | h
+    · exact h
+    · rw [List.getElem?_eq_none h] at hr; cases hr
+  obtain ⟨f, hf⟩ : ∃ f, fs[i]? = some f := ⟨fs[i]'(by omega), List.getElem?_eq_getElem (by omega)⟩
+  have hz : (sp.zip fs)[i]? = some (r, f) := List.getElem?_zip_eq_some.mpr ⟨hr, hf⟩
+  have hmem : (r, f) ∈ sp.zip fs := List.mem_of_getElem? hz
+  have hion : (r, f) ∈ ionsData (sp.zip fs) := by unfold ionsData; simp [hmem, hZ]
+  have hterm : 0 < (r.charge : α) * r.density := by
+    have : (1 : α) ≤ (r.charge : α) := by exact_mod_cast hZ
+    have h0 : (0 : α) < (r.charge : α) := by linarith
+    positivity
+  have hall : ∀ y ∈ (ionsData (sp.zip fs)).map (fun sc => (sc.1.charge : α) * sc.1.density), 0 ≤ y := by
+    intro y hy
+    obtain ⟨x, hx, rfl⟩ := List.mem_map.mp hy
+    have hxs : x.1 ∈ sp := by
+      unfold ionsData at hx; exact (List.of_mem_zip (List.mem_filter.mp hx).1).1
+    have := hn x.1 hxs
+    positivity
+  have := List.single_le_sum hall _ (List.mem_map.mpr ⟨(r, f), hion, rfl⟩)
+  unfold chargeDensity
+  linarith
+
+/-- **The CX clause of the property from physical hypotheses only**: a receiver ion (charge ≥ 1) of positive density
+and non-zero temperature, a non-zero beam density and direction, non-negative densities, one non-negative population
+coefficient per species for every excited metastable, neutrals only with null rates (`Guard`).  Then the emission is
+`(1/4π) n_beam n_receiver q` with every coefficient evaluated at the prescribed tuple and `q` between any bounds of the
+individual coefficients.  (`z_effective` cannot raise, the populations are well defined and non-negative: no further
+side conditions.) -/
+theorem cx_emission_statement (c : Consts α) (sqrt : α → α) (s : CXScene α) (ground : Coeff5 α)
+    (excited : List (Coeff5 α × List (Coeff3 α))) (r : Species α) (vd : V3 α) (lo hi : α)
+    (hr : s.species[s.receiver]? = some r) (hZ : 1 ≤ r.charge) (hnb : s.beamDensity ≠ 0) (hnr : 0 < r.density)
+    (hT : r.temperature ≠ 0) (hv : beamVelocity c sqrt s.beamEnergy s.beamDirection = some vd)
+    (hn : ∀ x ∈ s.species, 0 ≤ x.density)
+    (hlen : ∀ e ∈ excited, e.2.length = s.species.length)
+    (hg : ∀ e ∈ excited, Guard (s.species.zip e.2))
+    (hc : ∀ e ∈ excited, ∀ f ∈ e.2, ∀ x y z, 0 ≤ f x y z)
+    (h1 : lo ≤ (specArgs c sqrt s r vd).apply ground ∧ (specArgs c sqrt s r vd).apply ground ≤ hi)
+    (hq : ∀ e ∈ excited, lo ≤ (specArgs c sqrt s r vd).apply e.1 ∧ (specArgs c sqrt s r vd).apply e.1 ≤ hi) :
+    ∃ q : α, cxEmission c sqrt s ground excited = .line (c.recip4pi * s.beamDensity * r.density * q) ∧
+      q = specComposite c sqrt vd s.species (specArgs c sqrt s r vd) ground excited ∧ lo ≤ q ∧ q ≤ hi := by
+  have hmem : r ∈ s.species := List.mem_of_getElem? hr
+  have hz := ions_present_of_receiver s.species r hmem hZ hn hnr
+  have hpos : ∀ e ∈ excited, 0 < chargeDensity (s.species.zip e.2) :=
+    fun e he => charge_density_pos_of_receiver s.species e.2 s.receiver r (hlen e he) hr hZ hn hnr
+  have hform := cx_radiance_formula c sqrt s ground excited r vd hr hnb hnr.ne' hT hv hz hg
+  refine ⟨specComposite c sqrt vd s.species (specArgs c sqrt s r vd) ground excited, hform, rfl, ?_⟩
+  rw [← composite_at_formula c sqrt vd s.species _ ground excited hg]
+  apply cx_rate_between_min_max c sqrt vd s.species _ ground excited lo hi _ h1 hq
+  intro e he
+  apply beam_population_nonneg c sqrt vd _ (hg e he) _ (hpos e he)
+  · intro sc hsc x y z
+    exact hc e he sc.2 (List.of_mem_zip hsc).2 x y z
+  · intro sc hsc
+    exact hn sc.1 (List.of_mem_zip hsc).1
+
+/-! ## `Composition` as a state machine: rejected mutators change nothing, accepted ones notify -/
+
+def keys (d : List (Nat × Nat)) : List Nat := d.map Prod.fst
+
+/-- a mutator of the composition -/
+inductive CompOp where
+  | set (items : List Item)
+  | add (item : Option Item)
+  | clear
+
+def compStep (d : List (Nat × Nat)) : CompOp → CompResult
+  | .set items => compositionSet d items
+  | .add item => compositionAdd d item
+  | .clear => compositionClear d
+
+/-- dictionary after a history of mutators (a raising call leaves it as it was) -/
+def compRun (d : List (Nat × Nat)) (ops : List CompOp) : List (Nat × Nat) :=
+  ops.foldl (fun d op => (compStep d op).dict) d
+
+/-- a rejected mutator (`set` with a non-Species item, `add(None)`, `add(non-Species)`) leaves the composition exactly
+as it was and sends no notification -/
+theorem composition_rejected_unchanged (d : List (Nat × Nat)) (op : CompOp) (h : (compStep d op).raised = true) :
+    (compStep d op).dict = d ∧ (compStep d op).notified = false := by
+  cases op with
+  | set items =>
+    by_cases hall : items.all Item.isSpecies = true
+    · simp [compStep, compositionSet, hall] at h
+    · simp [compStep, compositionSet, hall]
+  | add item =>
+    simp only [compStep, compositionAdd] at h ⊢
+    split at h <;> simp_all
+  | clear => simp [compStep, compositionClear] at h
+
+/-- every accepted mutator notifies (dependent models then drop their caches), every rejected one does not -/
+theorem composition_notifies_iff_accepted (d : List (Nat × Nat)) (op : CompOp) :
+    (compStep d op).notified = !(compStep d op).raised := by
+  cases op with
+  | set items => simp only [compStep, compositionSet]; split_ifs <;> rfl
+  | add item => simp only [compStep, compositionAdd]; split <;> rfl
+  | clear => rfl
+
+/-- `set` raises exactly when some item is not a Species -/
+theorem composition_set_raises_iff (d : List (Nat × Nat)) (items : List Item) :
+    (compositionSet d items).raised = true ↔ ∃ it ∈ items, it.isSpecies = false := by
+  by_cases hall : items.all Item.isSpecies = true
+  · simp only [compositionSet, hall, if_true, Bool.false_eq_true, false_iff, not_exists, not_and]
+    intro it hit
+    simpa using List.all_eq_true.mp hall it hit
+  · have hex : ∃ it ∈ items, it.isSpecies = false := by simpa using hall
+    simpa [compositionSet, hall] using hex
+
+/-- an accepted `set` replaces the composition wholesale: the result does not depend on what was there before -/
+theorem composition_set_history_independent (d d' : List (Nat × Nat)) (items : List Item)
+    (h : (compositionSet d items).raised = false) :
+    (compositionSet d items).dict = (compositionSet d' items).dict := by
+  by_cases hall : items.all Item.isSpecies = true
+  · simp [compositionSet, hall]
+  · simp [compositionSet, hall] at h
+
+/-- assigning to a key that is present keeps every key at its position; a new key goes to the end -/
+theorem dictAssign_keys (d : List (Nat × Nat)) (k o : Nat) :
+    keys (dictAssign d k o) = if k ∈ keys d then keys d else keys d ++ [k] := by
+  unfold dictAssign keys
+  have hany : (d.any fun e => e.1 == k) = true ↔ k ∈ d.map Prod.fst := by
+    simp only [List.any_eq_true, beq_iff_eq, List.mem_map]
+  by_cases hk : k ∈ d.map Prod.fst
+  · rw [if_pos (hany.mpr hk), if_pos hk, List.map_map]
+    apply List.map_congr_left
+    intro e _
+    simp only [Function.comp]
+    split_ifs with h
+    · exact (beq_iff_eq.mp h).symm
+    · rfl
+  · rw [if_neg (fun h => hk (hany.mp h)), if_neg hk]
+    simp
+
+/-- … and the object stored under the key is the new one, all other entries are untouched -/
+theorem dictAssign_lookup (d : List (Nat × Nat)) (k o : Nat) :
+    (k, o) ∈ dictAssign d k o ∧ ∀ e ∈ d, e.1 ≠ k → e ∈ dictAssign d k o := by
+  unfold dictAssign
+  split_ifs with hany
+  · constructor
+    · obtain ⟨e, he, hek⟩ := List.any_eq_true.mp hany
+      exact List.mem_map.mpr ⟨e, he, by simp [hek]⟩
+    · intro e he hne
+      refine List.mem_map.mpr ⟨e, he, ?_⟩
+      simp [hne]
+  · exact ⟨by simp, fun e he _ => by simp [he]⟩
+
+theorem dictAssign_nodup (d : List (Nat × Nat)) (k o : Nat) (h : (keys d).Nodup) :
+    (keys (dictAssign d k o)).Nodup := by
+  rw [dictAssign_keys]
+  split_ifs with hk
+  · exact h
+  · refine List.nodup_append.mpr ⟨h, by simp, ?_⟩
+    intro a ha b hb
+    simp only [List.mem_singleton] at hb
+    rintro rfl
+    exact hk (hb ▸ ha)
+
+/-- for every history of mutators, accepted or rejected, no (element, charge) key occurs twice -/
+theorem composition_keys_nodup_all_histories (d : List (Nat × Nat)) (ops : List CompOp) (h : (keys d).Nodup) :
+    (keys (compRun d ops)).Nodup := by
+  have hfold : ∀ (items : List Item) (d0 : List (Nat × Nat)), (keys d0).Nodup →
+      (keys (items.foldl insertItem d0)).Nodup := by
+    intro items
+    induction items with
+    | nil => intro d0 h0; exact h0
+    | cons it t ih =>
+      intro d0 h0
+      simp only [List.foldl_cons]
+      apply ih
+      cases it with
+      | species k o => exact dictAssign_nodup d0 k o h0
+      | other => exact h0
+  induction ops generalizing d with
+  | nil => exact h
+  | cons op t ih =>
+    simp only [compRun, List.foldl_cons]
+    apply ih
+    cases op with
+    | set items =>
+      simp only [compStep, compositionSet]
+      split_ifs
+      · exact hfold items [] (by simp [keys])
+      · exact h
+    | add item =>
+      simp only [compStep, compositionAdd]
+      split
+      · exact dictAssign_nodup d _ _ h
+      · exact h
+    | clear => simp [compStep, compositionClear, keys]
+
+/-- a history in which every call is rejected leaves the composition untouched -/
+theorem composition_all_rejected_unchanged (d : List (Nat × Nat)) (ops : List CompOp)
+    (h : ∀ op ∈ ops, ∀ d', (compStep d' op).raised = true) : compRun d ops = d := by
+  induction ops generalizing d with
+  | nil => rfl
+  | cons op t ih =>
+    simp only [compRun, List.foldl_cons]
+    rw [(composition_rejected_unchanged d op (h op (by simp) d)).1]
+    exact ih d (fun op' hop' => h op' (by simp [hop']))
+
 /-! ## non-vacuity -/
 
 /-- the `sqrt` contract is met by the real square root -/
@@ -598,5 +904,39 @@ example : beamVelocity exConsts id exScene.beamEnergy exScene.beamDirection = so
 
 example : ((ions exScene.species).map fun x => x.density * (x.charge : ℚ) * (x.charge : ℚ)).sum ≠ 0 := by
   norm_num [ions, exScene, exSpecies]
+
+/-- weights of `composite_convex_weights` on a concrete list containing a zero coefficient and a zero population -/
+example : compositeCXRate (2 : ℚ) [(1, 0), (0, 7), (2, 1)] = 1 := by
+  norm_num [compositeCXRate, sumFrom]
+
+example : List.Perm [((1 : ℚ), (3 : ℚ)), (2, 5)] [(2, 5), (1, 3)] := List.Perm.swap _ _ _
+
+example : compositeCXRate (1 : ℚ) [(1, 3), (2, 5)] = compositeCXRate 1 [(2, 5), (1, 3)] :=
+  composite_perm_invariant _ _ _ (List.Perm.swap _ _ _)
+
+/-- the hypotheses of `beam_velocity_scale_invariant` are met by the real square root and a non-unit direction -/
+example : beamVelocity (⟨1, 1, 1⟩ : Consts ℝ) Real.sqrt 2 ⟨3 * 0, 3 * 3, 3 * 4⟩
+    = beamVelocity ⟨1, 1, 1⟩ Real.sqrt 2 ⟨0, 3, 4⟩ :=
+  beam_velocity_scale_invariant _ Real.sqrt (fun t ht => ⟨Real.sqrt_nonneg t, Real.mul_self_sqrt ht⟩) 2 3 ⟨0, 3, 4⟩
+    (by norm_num) (by norm_num [V3.normSq])
+
+/-- the physical hypotheses of `cx_emission_statement` are consistent: `exScene` (receiver C⁶⁺, index 1) with one
+excited metastable whose population coefficients are constants and a null rate for the neutral -/
+example : (0 : ℚ) < chargeDensity (exScene.species.zip [fun _ _ _ => 1, fun _ _ _ => 2, fun _ _ _ => 0]) :=
+  charge_density_pos_of_receiver exScene.species _ 1 ⟨6, 1/100, 200, ⟨1, 0, 0⟩⟩ rfl rfl (by decide)
+    (by intro x hx; simp only [exScene, exSpecies, List.mem_cons, List.not_mem_nil, or_false] at hx
+        rcases hx with rfl | rfl | rfl <;> norm_num)
+    (by norm_num)
+
+/-- the seeded `Composition.set` change (type check after the reset) contradicts `composition_rejected_unchanged`:
+here is what the as-is model does with `[C⁶⁺(new), 'x']` on `{D⁺, C⁶⁺}` — raises, keeps both, no notification -/
+example : compStep [(101, 0), (606, 1)] (.set [.species 606 7, .other]) = ⟨[(101, 0), (606, 1)], true, false⟩ := by decide
+
+example : (compStep [(101, 0), (606, 1)] (.add none)).raised = true := by decide
+
+/-- replacement keeps the position, a new key is appended, both notify -/
+example : compStep [(101, 0), (606, 1)] (.add (some (.species 101 9))) = ⟨[(101, 9), (606, 1)], false, true⟩ := by decide
+example : compStep [(101, 0)] (.set [.species 606 1, .species 101 2, .species 606 3]) = ⟨[(606, 3), (101, 2)], false, true⟩ := by
+  decide
 
 end Cherab.Props.C05
